@@ -30,6 +30,14 @@ theorem hcm_batch_eq_single_code (law : Law) (hl : SignPreserving law) (L : List
       ((twoPass law (L.map fun l => [cs.getD k 1 * l])).recs.map (proj 0)) :=
   C05L.twoPass_simC law hl cs hc k hk L
 
+/-- The running strain extremes (kept per assessment point since the fix 68eb0ef) of every point of a
+batch with proportional load histories are those the point gets alone (code model). -/
+theorem hcm_batch_eq_single_LF_code (law : Law) (hl : SignPreserving law) (L : List Int) (cs : List Int)
+    (hc : ∀ c ∈ cs, 0 < c) (k : Nat) (hk : k < cs.length) :
+    ((twoPass law (L.map fun l => cs.map (· * l))).recs.map (projLF k)) =
+      ((twoPass law (L.map fun l => [cs.getD k 1 * l])).recs.map (projLF 0)) :=
+  C05L.twoPass_simLFC law hl cs hc k hk L
+
 /-! ### non-vacuity (a sequence on which the code's flag differs from the repaired one is included) -/
 
 example : ((twoPass lawLinear ([0, 100, -200, 100, -100, 200].map fun l => [1, 3, 2].map (· * l))).recs.map (proj 1)) =
@@ -41,6 +49,10 @@ example :
     st.recs.map toG = (Spec.guideline lawLinear (fedOf st 1) (fedOf st 2)).recs ∧
     st.strainValues = (Spec.guideline lawLinear (fedOf st 1) (fedOf st 2)).strains :=
   hcm_model_eq_guideline_code lawLinear signPreserving_lawLinear _
+
+example : ((twoPass lawSat ([0, 100, -200, 100, -100, 200].map fun l => [1, 3, 2].map (· * l))).recs.map (projLF 1)) =
+    [(0, 91200), (-361800, 451200), (-361800, 1081800), (-361800, 1081800), (-361800, 1081800)] := by
+  decide +kernel
 
 /-- on this sequence the code model and the repaired variant feed different reversal sequences -/
 example : (twoPass lawLinear (C04.one [-200, -100, -200, -100])).fed ≠
